@@ -131,6 +131,32 @@ func VerifC03_InSet() {
 	vrt.Assert("C03.inset.reachability", got == want)
 }
 
+// One more node than the general harnesses, with the start fixed to node 0 and
+// one or two targets among the last nodes: graphs in which a node has several
+// parents that have parents of their own (work-list bookkeeping errors need a
+// target that is only reachable through the second pending ancestor).
+func VerifC03_InSetWide() {
+	k := 4
+	if vrt.Thorough() {
+		k = 5
+	}
+	vrt.Bound("nodes-wide", k)
+	s := c03New(k)
+	ts := []types.EntityUID{s.ids[k-1]}
+	want := s.reach(0, k-1)
+	if vrt.Choice("second-target", 2) == 1 {
+		ts = append(ts, s.ids[k-2])
+		want = vrt.Or(want, s.reach(0, k-2))
+	}
+	got := entityInSet(Env{Entities: s}, s.ids[0], mapset.Immutable(ts...))
+	if got {
+		vrt.Cover("C03.insetwide.true")
+	} else {
+		vrt.Cover("C03.insetwide.false")
+	}
+	vrt.Assert("C03.insetwide.reachability", got == want)
+}
+
 // VerifC03_InEval drives the operators through ToEval(...).Eval: `a in b`,
 // `a in [b, c]`, `a is T in b`.
 func VerifC03_InEval() {
